@@ -10,7 +10,7 @@ RULE = (
     "Hypothesis RuleBasedStateMachine over one Pickled object started from a natural pickle "
     "(generated value, protocols 0-5) or an assembled program: rules insert / p[i]=op / "
     "p[i:j]=ops / p[i]=equal-looking opcode of the same class / del p[i] / del p[i:j] / append / extend / pop / remove / reverse / += / the "
-    "a compound read-edit-read step / the "
+    "a compound read-edit-read step / extend and += with an iterable that fails half-way / the "
     "injection helpers (insert_python_eval/exec in all flag combinations, append_python, "
     "insert_magic_int, insert_function_call_on_unpickled_object) interleaved with reads of one "
     "derived view (ast dump, has_import, has_call, has_non_setstate_call, imports text, "
@@ -27,7 +27,7 @@ ASSUMPTIONS = [
     "model",
 ]
 
-VIEWS = ("astdump", "has_import", "has_call", "has_nss_call", "imports", "severity", "dumps", "dump_file")
+VIEWS = ("astdump", "has_import", "has_call", "has_nss_call", "imports", "severity", "dumps", "dump_file", "counts")
 # every opcode class without an argument (the machine draws from all of them)
 SIMPLE = ("MARK", "TUPLE", "REDUCE", "POP", "STOP", "EMPTY_LIST", "EMPTY_DICT", "APPEND", "MEMOIZE",
           "NONE", "DUP", "EMPTY_TUPLE", "TUPLE1", "BUILD", "POP_MARK", "STACK_GLOBAL", "NEWOBJ",
@@ -92,6 +92,8 @@ def view(p, which):
             return ("ok", check_safety(p).severity.name)
         if which == "dumps":
             return ("ok", p.dumps())
+        if which == "counts":
+            return ("ok", (len(p), p.nb_opcodes, [o.name for o in p.opcodes], [o.name for o in p]))
         if which == "dump_file":
             import io
 
@@ -149,6 +151,24 @@ def apply_step(p, step):
             p.append(make_op(step[1]))
         elif kind == "extend":
             p.extend([make_op(s) for s in step[1]])
+        elif kind == "extend_fails":
+            # extend / += with an iterable that fails half-way (raises, or yields something that is
+            # not an opcode): whatever was added before the failure is part of the opcode list
+            def items():
+                for s in step[1]:
+                    yield make_op(s)
+                if step[2] == "raise":
+                    raise RuntimeError("iterable failed")
+                yield "not an opcode"
+                yield make_op(("simple", "NONE"))
+
+            try:
+                if step[3]:
+                    p += items()
+                else:
+                    p.extend(items())
+            except Exception:  # noqa: BLE001 - the caller catches and carries on
+                pass
         elif kind == "pop":
             if n:
                 p.pop(step[1] % n)
@@ -357,6 +377,21 @@ def _machine(res, holder):
         @rule(ss=st.lists(specs, max_size=3))
         def extend(self, ss):
             self._edit(("extend", ss))
+
+        @rule(ss=st.lists(st.one_of(specs, structural), min_size=1, max_size=3), how=st.sampled_from(["raise", "bad_item"]),
+              iadd=st.booleans(), v=st.sampled_from(VIEWS))  # fmt: skip
+        def extend_fails(self, ss, how, iadd, v):
+            # read a view first so that it is cached when the failing extend happens
+            self.history.append(("read", v))
+            msg = compare(self.p, v) or compare_sibling(self.sib, v)
+            if msg:
+                self._fail(msg)
+            self._edit(("extend_fails", ss, how, iadd))
+            self.history.append(("read", v))
+            self.nontrivial = True
+            msg = compare(self.p, v) or compare_sibling(self.sib, v)
+            if msg:
+                self._fail(msg)
 
         @rule(i=idx)
         def pop(self, i):
